@@ -256,3 +256,24 @@ def run(chk, prog, tier):
     chk.ok("C02.a", STEP_FN, f"infiltration.{f_irr} <- irrigation(...)", "irrigation depth is irrigation()'s return")
     chk.assume("A-2")
     chk.exhaustive = True
+
+
+def run_surface_only(chk, prog):
+    """the surface bookkeeping templates alone (used by C01.e)"""
+    step = prog.func(STEP_FN)
+    rp = prog.find_func("rainfall_partition")
+    inf = prog.find_func("infiltration")
+    c_inf = [c for c in walk_no_nested(step.node) if isinstance(c, ast.Call) and getattr(prog.resolve_call(step, c), "key", None) == inf.key]
+    c_rp = [c for c in walk_no_nested(step.node) if isinstance(c, ast.Call) and getattr(prog.resolve_call(step, c), "key", None) == rp.key]
+    if len(c_inf) != 1 or len(c_rp) != 1:
+        raise AnalysisError("expected one call each of rainfall_partition and infiltration in the step")
+    # formals of infiltration that receive rainfall_partition's results: by the names the step unpacks them into
+    tg = None
+    for n in walk_no_nested(step.node):
+        if isinstance(n, ast.Assign) and n.value is c_rp[0] and isinstance(n.targets[0], ast.Tuple):
+            tg = [t.id for t in n.targets[0].elts if isinstance(t, ast.Name)]
+    rp_pos = {}
+    for i, a in enumerate(c_inf[0].args):
+        if isinstance(a, ast.Name) and tg and a.id in tg:
+            rp_pos[tg.index(a.id)] = inf.params[i]
+    surface_bookkeeping(chk, prog, inf, step, c_inf[0], rp_pos, None)
